@@ -221,17 +221,14 @@ pub fn run(args: &Args, report: &mut Report) {
             {
                 let w = witness.clone();
                 let prop2 = prop.clone();
-                crate::run::on_no_return(move |end, census| {
-                    // flush a report for this shard before exiting: the driver resumes after it
-                    let mut r = Report::new(&prop2);
+                crate::report::RESUME_FROM.store(resume, std::sync::atomic::Ordering::SeqCst);
+                crate::run::on_no_return(move |end, census, r| {
+                    // the witness goes into the shard's report; the driver resumes after this case
                     let mut d = w.clone();
                     d["error"] = json!(format!("job did not return: {end:?}"));
                     d["census"] = crate::run::census_json(census);
                     let verdict = if *end == JobEnd::Deadlocked && prop2 == "C04" { Verdict::Violated } else { Verdict::Inconclusive };
                     r.case(verdict, None, || d);
-                    let mut j = r.to_json();
-                    j["resume_from"] = json!(resume);
-                    println!("REPORT {}", serde_json::to_string(&j).unwrap());
                 });
             }
             let out = run_program(&g, batch, layout, policy, false);
